@@ -1291,7 +1291,8 @@ function expandDecl(d) {
   const bad = { lh: null, all: null, feats: fx };
   if (d.custom) {
     if (hasBadToken(toComps(d.value))) return bad;
-    return { lh: [[d.name, customText(d.value)]], all: null, feats: fx };
+    const cw = wideKeyword(toComps(d.value)); // CSS-wide keywords keep their meaning (case-insensitively) in custom properties
+    return { lh: [[d.name, cw || customText(d.value)]], all: null, feats: fx };
   }
   const comps = toComps(d.value);
   const name = d.name;
